@@ -16,7 +16,8 @@ ID = 'C13'
 LEVEL = 'model_checking'
 TRACE = 'trace/Trace_C13'
 RULE = ('case = one call of the real hexdump (data, bytes-per-line, bytes-per-chunk), one call of the real parse '
-        '(text lines, line format) or one `peltool -x` run; non-trivial = data non-empty and not a multiple of the '
+        '(text lines, line format), one dump file (data lines plus title / comment / blank lines) read by the real '
+        'dump-file reader, or one `peltool -x` run; non-trivial = data non-empty and not a multiple of the '
         'line length, or a non-default layout / drawer format; distinct = by (kind, data, layout / format)')
 ASSUMPTIONS = [
     'only \\n line endings and offsets below 2^31 are generated',
@@ -54,6 +55,12 @@ def cases(tier, seed, info):
         for fmt in ('bmc', 'pre'):
             items.append(dict(kind='parse', fmt=fmt, data=d, how=rng.choice(['upper', 'lower']),
                               noise=rng.random() < .4))
+    # the same renderings read as a dump FILE by the real reader (which has to find out the format itself), with
+    # title / comment / blank lines before, between and after the data lines
+    for n in lens[::2] + [1, 4, 15, 16, 17, 68]:
+        for fmt in ('bmc', 'pre'):
+            items.append(dict(kind='file', fmt=fmt, data=_data(rng, n), how=rng.choice(['upper', 'lower']),
+                              seed=rng.randrange(1 << 30)))
     # offsets beyond 0xFFFF (the 4-digit address column of the BMC format wraps; the default format has 8 digits)
     big = _data(rng, 65536 + 40)
     items.append(dict(kind='dump', data=big, bpl=16, bpc=4))
@@ -108,9 +115,56 @@ def _render(data, fmt, lower):
     return out
 
 
+TITLES = ['', '# dump taken today', 'Drawer dump', 'Enclosure U78D4.ND0.WZS000A', 'dump captured by service',
+          'Collected 2024-01-01', 'IO drawer dump', 'Memory dump of ESM A', '--- end ---', 'Begin', 'File: x.txt',
+          'address  data', 'A', 'f', '0x', '; note', '\t', '   ', 'END OF DUMP', 'checksum ok']
+
+
+def _decorate(lines, rng):
+    out = []
+    where = rng.choice(['none', 'before', 'after', 'between', 'all', 'before', 'all'])
+    lines = [l + '\n' for l in lines]
+    if where in ('before', 'all'):
+        out += [rng.choice(TITLES) + '\n' for _ in range(rng.randrange(1, 4))]
+    for k, l in enumerate(lines):
+        out.append(l)
+        if where in ('between', 'all') and rng.random() < .3:
+            out.append(rng.choice(TITLES) + '\n')
+    if where in ('after', 'all'):
+        out += [rng.choice(TITLES) + '\n' for _ in range(rng.randrange(1, 3))]
+    if out and rng.random() < .3:
+        out[-1] = out[-1].rstrip('\n')
+    return out
+
+
+def _file_item(it):
+    import io_drawer.dump as dd
+    rng = random.Random(it['seed'])
+    lines = _decorate(_render(it['data'], it['fmt'], it['how'] == 'lower'), rng)
+    path = os.path.join(seams.scratch_dir('c13'), 'dump.txt')
+    with open(path, 'w') as f:
+        f.write(''.join(lines))
+    got = []
+    orig = dd.parse_dump_data
+
+    def spy(data, header_file, string_file):
+        got.append(bytes(data))
+        return []
+    dd.parse_dump_data = spy
+    try:
+        dd.parse_dump_file(path, '/nonexistent/header.h', '/nonexistent/strings')
+    finally:
+        dd.parse_dump_data = orig
+        os.remove(path)
+    return dict(kind='file', shape_ok=len(got) <= 1, fmt=it['fmt'], lines=_cp(lines), data=it['data'],
+                result=list(got[0]) if got else [])
+
+
 def _item(it):
     import pel.hexdump as hd
     import io_drawer.dump as dd
+    if it['kind'] == 'file':
+        return _file_item(it)
     if it['kind'] == 'dump':
         lines = hd.hexdump(memoryview(bytes(it['data'])), it['bpl'], it['bpc'])
         ok = isinstance(lines, list) and all(isinstance(x, str) for x in lines)
@@ -175,6 +229,8 @@ def nontrivial(r):
         return None
     if r['kind'] == 'parse':
         return ('p', r['fmt'], str(r['lines'])[:400]) if r['result'] else None
+    if r['kind'] == 'file':
+        return ('f', r['fmt'], str(r['lines'])[:600]) if r['result'] and len(r['lines']) > (len(r['data']) + 15) // 16 else None
     return ('x', bytes(r['data']))
 
 
@@ -189,6 +245,9 @@ def sample(r):
     if r['kind'] == 'parse':
         return dict(kind='parse', fmt=r['fmt'], first_line=''.join(chr(c) for c in r['lines'][0]) if r['lines'] else None,
                     result=r['result'][:24])
+    if r['kind'] == 'file':
+        return dict(kind='file', fmt=r['fmt'], lines=[''.join(chr(c) for c in l) for l in r['lines'][:4]],
+                    recovered=len(r['result']), data=len(r['data']))
     return dict(kind='hexmode', file_len=len(r['data']), lines=len(r['lines']))
 
 
@@ -201,6 +260,11 @@ def corrupt(r):
         if not r['known']:
             return None
         r['result'] = r['result'] + [0]
+    elif r['kind'] == 'file':
+        # (a title that happens to spell a data byte makes the file ambiguous: nothing is demanded then)
+        if not r['data'] or any(''.join(map(chr, l[:2])).lower() in ('be', 'ad') for l in r['lines']):
+            return None
+        r['result'] = r['result'][:-1]
     else:
         r['data'] = r['data'] + [0]
     return r
